@@ -56,3 +56,7 @@ def run(ctx):
                timeout=ctx.scale(600, 3000), classify=lambda l, o: "changes=%d" % (sum(1 for x in l if x.startswith("probe ")) - 1))
     ctx.stream("table", "table", cs, classify=classify, nontrivial=nontrivial, spec_exact=True, timeout=ctx.scale(600, 3000),
                removable=lambda l: l.startswith(("in ", "inm ", "aggin ")))
+    # the same while routes, destinations, blacklist, rewriters and aggregations are added, removed and modified through the admin
+    # API between bursts of repeated names: after every change the routing is that of the table as it now is (nothing remembered)
+    ctx.stream("table-history", "table", tg.history_cases(ctx.rng("c01h"), ctx.scale(60, 1200), nroutes=(2, 5)), classify=classify, nontrivial=nontrivial,
+               spec_exact=True, timeout=ctx.scale(600, 3000), removable=tg.HISTORY_REMOVABLE)
